@@ -119,7 +119,147 @@ def run_one(chk, sseed, cls):
         w.destroy()
 
 
+# ---------------------------------------------------------------------------
+# flat repositories (deb URL dir/): release files and indices live in the directory itself and, when the pool files lie in
+# or below it, are published file by file instead of by a directory swap
+
+def flat_store(rng, fdir, pool_in_dir, npkg, date):
+    """returns (store {path: (bytes, mtime)}, pool {path: size}) of a flat repository directory `fdir` ('' = the root)"""
+    import hashlib
+    pre = fdir + "/" if fdir else ""
+    pool_pre = pre if pool_in_dir else ""
+    store, pool, stanzas = {}, {}, []
+    for k in range(npkg):
+        name = f"fp{k}"
+        fn = f"{pool_pre}pool/{name}_{rng.randint(1, 9)}_amd64.deb"
+        size = rng.randint(1, 300)
+        pool[fn] = size
+        store[fn] = (upstream.blob(fn, size), upstream.pool_date(fn))
+        stanzas.append(f"Package: {name}\nVersion: 1\nArchitecture: amd64\nFilename: {fn}\nSize: {size}\nSHA256: {'ab' * 32}\n")
+    packages = "\n".join(stanzas).encode()
+    comps = rng.sample([".xz", ".gz", ""], rng.randint(1, 3))
+    entries = []
+    for c in comps:
+        data = upstream.COMPRESS[c](packages)
+        store[f"{pre}Packages{c}"] = (data, date)
+        entries.append((f"Packages{c}", data))
+    lines = ["Origin: verif-flat", "Date: Thu, 01 Jan 2009 00:00:00 UTC"]
+    for label, h in [("MD5Sum", "md5"), ("SHA256", "sha256")]:
+        lines.append(f"{label}:")
+        for nme, data in entries:
+            lines.append(f" {hashlib.new(h, data).hexdigest()} {len(data)} {nme}")
+    rel = ("\n".join(lines) + "\n").encode()
+    fl = rng.choice([["Release"], ["InRelease", "Release"], ["Release", "Release.gpg"]])
+    if "Release" in fl:
+        store[f"{pre}Release"] = (rel, date)
+    if "InRelease" in fl:
+        store[f"{pre}InRelease"] = (b"-----BEGIN PGP SIGNED MESSAGE-----\nHash: SHA256\n\n" + rel +
+                                    b"-----BEGIN PGP SIGNATURE-----\n\nabc\n-----END PGP SIGNATURE-----\n", date)
+    if "Release.gpg" in fl:
+        store[f"{pre}Release.gpg"] = (b"sig", date)
+    return store, pool
+
+
+def flat_fsck(mdir, fdir):
+    """independent reading of a published flat directory: listed Packages variants (one with the listed size), then every
+    Filename of the published index below the repository root with its Size"""
+    from e2e import fsck as fsckmod
+    d = os.path.join(mdir, fdir) if fdir else mdir
+    relp = next((os.path.join(d, n) for n in ("InRelease", "Release") if os.path.isfile(os.path.join(d, n))), None)
+    if relp is None:
+        return ["no published release file"] if os.path.isdir(mdir) and any(f for _, _, fs in os.walk(mdir) for f in fs) else []
+    _, entries = fsckmod.parse_release(open(relp, encoding="utf-8", errors="replace").read())
+    sizes = {}
+    for algo, h, size, name in entries:
+        if name.startswith("Packages") and size:
+            sizes[name] = size
+    if not sizes:
+        return []
+    have = [n for n, sz in sizes.items() if os.path.isfile(os.path.join(d, n)) and os.path.getsize(os.path.join(d, n)) == sz]
+    if not have:
+        return [f"no variant of Packages published with its listed size (listed {sorted(sizes)})"]
+    n = sorted(have)[0]
+    ext = fsckmod.uncompressed(n)[1]
+    try:
+        text = fsckmod.OPENERS[ext](open(os.path.join(d, n), "rb").read()).decode()
+    except Exception as ex:
+        return [f"published {n} cannot be read: {ex!r}"]
+    out = []
+    for path, size in fsckmod.pool_of_packages(text, {}).items():
+        p = os.path.join(mdir, path)
+        if not os.path.isfile(p):
+            out.append(f"{path} referenced by the published {n} is absent")
+        elif os.path.getsize(p) != size:
+            out.append(f"{path} has {os.path.getsize(p)} bytes, the published {n} declares {size}")
+    return out
+
+
+def occupy(path):
+    """a local accident: the place of a file is taken by a non-empty directory"""
+    if os.path.isfile(path) or os.path.islink(path):
+        os.remove(path)
+    os.makedirs(os.path.join(path, "occupied"), exist_ok=True)
+
+
+def flat_one(chk, sseed):
+    rng = random.Random(sseed)
+    url = "http://flat.example/repo"
+    fdir = rng.choice(["stable", "stable", ".", "a/b"])
+    pool_in_dir = rng.random() < 0.6 or fdir == "."
+    sb = runner.Sandbox("flat")
+    try:
+        cn = "./" if fdir == "." else fdir + "/"
+        lines = [f"deb [arch=amd64] {url} {cn}", f"clean {url}"]
+        sb.write_config(lines, {"wipe_size_ratio": "0", "wipe_count_ratio": "0"})
+        real_dir = "" if fdir == "." else fdir
+        mdir = runner.mirror_dir(sb, url)
+        history = rng.random() < 0.5
+        cls = rng.choice(["none", "transient", "persistent-pool", "local-index-dir", "local-index-dir", "local-pool-dir"])
+        localinfo = None
+        exits = []
+        for step in range(2 if history else 1):
+            store, pool = flat_store(rng, real_dir, pool_in_dir, rng.randint(1, 5), upstream.T0 + 86400 * step)
+            last = step == (1 if history else 0)
+            plan = []
+            if last and cls == "transient":
+                for k in rng.sample(sorted(store), min(2, len(store))):
+                    # (release files have no declared size: a cleanly ended short body is not detectable by the tool - over
+                    # real HTTP the transport detects it, C18 - so their faults are restricted to the detectable kinds)
+                    rel = k.rsplit("/", 1)[-1] in ("Release", "InRelease", "Release.gpg")
+                    plan.append([k, 0, rng.choice(["500", "abort", "404"] if rel else ["500", "short-announced", "abort", "404"])])
+            if last and cls == "persistent-pool" and pool:
+                plan.append([rng.choice(sorted(pool)), "*", rng.choice(["500", "404", "wrong-length"])])
+            if last and cls == "local-index-dir":
+                # the published place of an index (or of a release file) is occupied by a directory
+                cands = [k for k in store if not k.startswith(("pool/",)) and "/pool/" not in k]
+                tgt = rng.choice(sorted(cands))
+                occupy(os.path.join(mdir, tgt))
+                localinfo = ["mirror", tgt]
+            if last and cls == "local-pool-dir" and pool:
+                tgt = rng.choice(sorted(pool))
+                occupy(os.path.join(mdir, tgt))
+                localinfo = ["mirror", tgt]
+            res = run_e2e.execute(sb, [{"url": url}], {url: store}, {url: plan}, vloop.RandomChooser(rng.randrange(1 << 30)))
+            exits.append(res.exit)
+        replay = {"scenario_seed": sseed, "flat": True, "lines": lines, "class": cls, "local": localinfo, "exits": exits}
+        if res.exit == 0:
+            probs = flat_fsck(mdir, real_dir)
+            if probs:
+                sig = "exit0-fsck-dirty:flat" + (":local-oserror" if localinfo else "")
+                chk.violation(sig, replay, f"exit 0 but the published flat directory {cn}: {probs[0]}")
+            chk.count("antecedent_true(exit0)")
+        common.correspondence(chk, res, replay, publish=False)
+        chk.evaluated(("flat", fdir, pool_in_dir, cls, res.exit, history), sample={"flat": cn, "class": cls, "exit": res.exit, "pool_in_dir": pool_in_dir})
+        chk.count("flat_repository_runs")
+        chk.count(f"flat_exit:{res.exit}")
+        chk.traces += 1
+    finally:
+        sb.destroy()
+
+
 def run(chk, tier, rng):
+    for i in range(40 if tier == "quick" else 800):
+        flat_one(chk, f"C01F-{chk.seed}-{i}")
     n = 160 if tier == "quick" else 3000
     for i in range(n):
         cls = CLASSES[i % len(CLASSES)]
@@ -133,7 +273,10 @@ def replay(rep):
     chk = Check("C01", "quick", 0)
     chk.known = []
     r = rep["replay"]
-    run_one(chk, r["scenario_seed"], r["class"])
+    if r.get("flat"):
+        flat_one(chk, r["scenario_seed"])
+    else:
+        run_one(chk, r["scenario_seed"], r["class"])
     for sig, path, msg, _ in chk.violations:
         print(f"REPLAY VIOLATION {sig}: {msg}")
     return 1 if chk.violations else 0
